@@ -129,7 +129,8 @@ def _compare(ctx, gen, data, target_idx, wit):
 
 # (crlf headers, blank lines before the section, main options reversed, option-order selector, optional option present)
 STYLES = [(False, 0, False, 0, False), (True, 1, True, 1, True), (False, 2, True, 2, False), (True, 0, False, 3, True)]
-STYLES_FULL = [(c, b, r, k, e) for c in (False, True) for b in (0, 1, 2) for r in (False, True) for k in (0, 1, 2, 3, 4) for e in (False, True)]
+STYLES_FULL = STYLES + [(False, 1, False, 4, True), (True, 2, False, 2, False), (False, 0, True, 1, True), (True, 1, True, 0, False),
+                        (False, 2, False, 3, True), (True, 0, True, 4, False), (False, 1, True, 2, False), (True, 2, True, 3, True)]
 
 
 def ob_section(ctx, kind, N, encs, full):
@@ -363,7 +364,7 @@ def _enc_cfg(cat):
 def obligations(tier):
     quick = tier == 'quick'
     cat = ['utf-8', 'utf-16', 'latin-1', 'utf-32-be'] if quick else E8
-    N = 3 if quick else 5
+    N = 3 if quick else 4
     obs = []
     for kind in ('main-preamble', 'change-preamble', 'diff'):
         obs.append(Ob('section[%s]' % kind, ob_section, dict(kind=kind, N=N if kind != 'main-preamble' else N - 1,
